@@ -114,3 +114,35 @@ def gen_c05_random(rnd, tier):
         out.append({'m': 'curve', 'op': 'resample', 'dim': dim, 'pts': pts, 'fc': fc, 'sc': rnd.choice((0, -10, 4, -3, 7)),
                     'tolU': 0, 'mode': mode, 'n': k})
     return out
+
+
+def gen_c12_random(rnd, tier):
+    """larger meshes: triangulated grids (disks), with holes, flipped faces, vertex-only contacts, several components"""
+    n = 40 if tier == 'quick' else 600
+    out = []
+    for _ in range(n):
+        w, h = rnd.randint(1, 5), rnd.randint(1, 4)
+        vpos = [[x, y, (x * y) % 3] for y in range(h + 1) for x in range(w + 1)]
+        vid = lambda x, y: y * (w + 1) + x
+        faces = []
+        for y in range(h):
+            for x in range(w):
+                if rnd.random() < 0.15:
+                    continue            # hole
+                a, b, c, d = vid(x, y), vid(x + 1, y), vid(x + 1, y + 1), vid(x, y + 1)
+                if rnd.random() < 0.5:
+                    fs = [[a, b, c], [a, c, d]]
+                else:
+                    fs = [[a, b, d], [b, c, d]]
+                for f in fs:
+                    if rnd.random() < 0.1:
+                        continue        # missing triangle (creates vertex-only contacts)
+                    if rnd.random() < 0.15:
+                        f = [f[0], f[2], f[1]]   # flipped
+                    k = rnd.randint(0, 2)
+                    faces.append(f[k:] + f[:k])
+        if not faces:
+            continue
+        rnd.shuffle(faces)
+        out.append({'m': 'topo', 'op': 'mesh', 'wd': 3000, 'reps': 4, 'nv': len(vpos), 'vpos': vpos, 'faces': faces})
+    return out
